@@ -123,9 +123,19 @@ def coxeter_sampling(tier, rng, rep):
         names = "abcdefgh"[:rank]
         diagram = [(names[i], names[j], int(l)) for (i, j), l in zip(pairs, labels)]
         inp = {"labels": [int(l) for l in labels], "rank": rank}
-        for route in ("matrix", "matrix_alphanum", "diagram"):
+        # the same diagram with its edges listed in another order / orientation and generator names that are not in alphabetical
+        # order of first appearance
+        names_s = "xmdqazbk"[:rank]
+        order_s = rng.permutation(len(pairs))
+        diagram_s = [((names_s[pairs[e][1]], names_s[pairs[e][0]]) if rng.random() < 0.5 else (names_s[pairs[e][0]], names_s[pairs[e][1]])) + (int(labels[e]),) for e in order_s]
+        for route in ("matrix", "matrix_alphanum", "diagram", "diagram_shuffled"):
             def body():
-                if route == "matrix":
+                names = names_s if route == "diagram_shuffled" else "abcdefgh"[:rank]
+                if route == "diagram_shuffled":
+                    if rank < 2:
+                        return
+                    G = coxeter.CoxeterGroup(diagram=diagram_s)
+                elif route == "matrix":
                     G = coxeter.CoxeterGroup(matrix=M.tolist())
                 elif route == "matrix_alphanum":
                     G = coxeter.CoxeterGroup(matrix=M.tolist(), generator_style="alphanum")
@@ -134,9 +144,9 @@ def coxeter_sampling(tier, rng, rep):
                         return
                     G = coxeter.CoxeterGroup(diagram=diagram)
                 gens = G.ordered_gens
-                if route == "diagram" and sorted(gens) != sorted(names):
+                if route.startswith("diagram") and sorted(gens) != sorted(names):
                     rep.fail("diagram_generators", f"{gens}", inp); return
-                idx = {g: (names.index(g) if route == "diagram" else k) for k, g in enumerate(gens)}
+                idx = {g: (names.index(g) if route.startswith("diagram") else k) for k, g in enumerate(gens)}
                 # expected cosine form from the INPUT labels
                 Bexp = np.eye(rank)
                 for (i, j), l in zip(pairs, labels):
